@@ -152,9 +152,15 @@ fn malformed(f: &Family, st: &mut Stats, tier: Tier) {
             st.transitions += 1;
             let d = match exec_history(f, &contexts[ci]) {
                 Ok(d) => d,
-                Err(_) => {
-                    println!("MACHINERY: context history failed");
-                    std::process::exit(2);
+                Err(e) => {
+                    // the context consists of valid operations only (a permutation sized by the
+                    // definition files, a valid user lexicon): its failure is a verdict
+                    st.violation(Finding {
+                        class: "valid-op-rejected".into(),
+                        what: format!("the valid context history {:?} fails on family {} at step {}: {}", contexts[ci], f.name, e.0, match &e.1 { RealStep::Err(m) => format!("Err {m}"), RealStep::Panic(m) => format!("panic {m}"), RealStep::Ok(_) => String::new() }),
+                        replay: json!({"kind": "dictionary_history", "case": f.describe(&contexts[ci])}),
+                    });
+                    return;
                 }
             };
             let n_side = if right_side { f.base.nr } else { f.base.nl };
